@@ -112,6 +112,13 @@ TAudit ==
        ELSE Ev.res = "refused"
   /\ Same
 
+(* C09: an audit proof with inconsistent lists or any replaced root hash is rejected *)
+TAuditTamper ==
+  /\ IsEv("audit_tamper")
+  /\ AuditDefined(Ev.s, Ev.e)
+  /\ ~Ev.accepted
+  /\ Same
+
 (* C19: the protobuf wire path is the identity on proofs and on verification results *)
 TWire ==
   /\ IsEv("wire")
@@ -125,7 +132,7 @@ TReopen ==
 
 TNext ==
   \/ TReset \/ TPublish \/ TTombstone \/ TEpochHash \/ TLookup \/ TBatchLookup
-  \/ THistory \/ TAudit \/ TWire \/ TReopen
+  \/ THistory \/ TAudit \/ TAuditTamper \/ TWire \/ TReopen
 
 TSpec == TInit /\ [][TNext]_tvars
 
